@@ -1,5 +1,5 @@
 (* C11: encode_stateless writes RFC 9204 (T1), the reference decoder decides the grammar, and the round trip. *)
-From H3V Require Import Base.Bytes Base.BytesLemmas Gen.GenStatic Gen.GenQStateless
+From H3V Require Import Base.Bytes Base.BytesLemmas Gen.GenStatic Gen.GenQStateless Gen.GenPrefixString
   Spec.PrefixInt Spec.RFC7541Huffman Spec.HuffmanKnown Spec.RFC9204Static Spec.FieldSize
   Model.PrefixInt Model.Huffman Model.PrefixString Model.Static Model.QpackStateless
   Proofs.C15Finite Proofs.BitsLemmas Proofs.HuffmanWalk Proofs.HuffmanStrict Proofs.HuffmanDecodeProofs Proofs.HuffmanEncodeProofs Proofs.PrefixIntProofs
@@ -17,10 +17,10 @@ Proof.
     + intros p s _ H. apply rfc_huff_decode_iff. exact H.
 Qed.
 
-(* a field list h3 can hold: octets, and lengths an address space allows (usize is 64 bit; the Huffman form of
-   a string is at most 30/8 of its length, and string lengths are written as u64) *)
+(* a field h3 can encode: octets, and strings shorter than 2^26 octets (the Huffman encoder, like the decoder,
+   addresses bits with u32 positions: Model/Huffman.v enc_fits) *)
 Definition wf_field (f : field) : Prop :=
-  wf_bytes (fst f) /\ wf_bytes (snd f) /\ len (fst f) < 2 ^ 58 /\ len (snd f) < 2 ^ 58.
+  wf_bytes (fst f) /\ wf_bytes (snd f) /\ len (fst f) < 2 ^ 26 /\ len (snd f) < 2 ^ 26.
 
 Lemma codes_length_le s : wf_bytes s -> (length (codes s) <= 30 * length s)%nat.
 Proof.
@@ -30,12 +30,12 @@ Proof.
   pose proof (code_bits_len c ltac:(lia)) as Hl. specialize (IH Hs). cbn [length]. lia.
 Qed.
 
-Lemma huffman_length_bound e s : hs_strict e s -> len s < 2 ^ 58 -> len e < 2 ^ 64.
+Lemma huffman_length_bound e s : hs_strict e s -> len s < 2 ^ 26 -> len e < 2 ^ 64.
 Proof.
   intros (Hwf & pad & Hb & Hp & _) Hl. pose proof (codes_length_le s Hwf) as Hc.
   assert (Hlen : length (bits_of_bytes e) = (length (codes s) + length pad)%nat) by (rewrite Hb, app_length; reflexivity).
   rewrite bits_of_bytes_length in Hlen. unfold len in *.
-  change (2 ^ 58) with 288230376151711744 in Hl. change (2 ^ 64) with 18446744073709551616. lia.
+  change (2 ^ 26) with 67108864 in Hl. change (2 ^ 64) with 18446744073709551616. lia.
 Qed.
 
 Lemma ps_flag_values : N.lor (N.shiftl 0 1 mod 256) 1 = 1 /\ N.lor (N.shiftl 2 1 mod 256) 1 = 5.
@@ -43,19 +43,19 @@ Proof. split; reflexivity. Qed.
 
 Section WithC15Enc.
   (* C15's hpack_encode_valid: the Huffman encoder writes a valid RFC 7541 5.2 encoding *)
-  Lemma H_henc : forall s, wf_bytes s -> exists e, hpack_encode s = Ok e /\ wf_bytes e /\ hs_strict e s.
+  Lemma H_henc : forall s, wf_bytes s -> len s < 2 ^ 26 -> exists e, hpack_encode s = Ok e /\ wf_bytes e /\ hs_strict e s.
   Proof.
-    intros s Hwf. destruct (hpack_encode_valid s Hwf) as (e & He & Hwe & Hv & _). exists e. auto.
+    intros s Hwf Hl. destruct (hpack_encode_valid s Hwf Hl) as (e & He & Hwe & Hv & _). exists e. auto.
   Qed.
 
   (* prefix_string::encode(8, 0, s) and (4, 0b0010, s): a Huffman string literal *)
   Lemma ps_encode_value s :
-    wf_bytes s -> len s < 2 ^ 58 ->
+    wf_bytes s -> len s < 2 ^ 26 ->
     exists e, ps_encode 8 0 s = Ok e /\ wf_bytes e /\ str_lit hs_strict 7 0 s e.
   Proof.
-    intros Hwf Hl. destruct (H_henc s Hwf) as (p & Hp & Hwfp & Hhs).
+    intros Hwf Hl. destruct (H_henc s Hwf Hl) as (p & Hp & Hwfp & Hhs).
     pose proof (huffman_length_bound _ _ Hhs Hl) as Hlp.
-    unfold ps_encode. rewrite Hp. change (8 =? 0) with false. cbv iota.
+    unfold ps_encode, ps_enc_size_offset, ps_enc_flag_shift, ps_enc_flag_or. rewrite Hp. change (8 <? 1) with false. cbv iota.
     destruct ps_flag_values as [-> _]. change (8 - 1) with 7.
     destruct (pi_encode_total 7 1 (len p) ltac:(lia) ltac:(reflexivity) Hlp) as (e1 & He1 & Hwf1 & Hd & _).
     rewrite He1. exists (e1 ++ p). split; [reflexivity|]. split; [apply wf_bytes_app; auto|].
@@ -63,12 +63,12 @@ Section WithC15Enc.
   Qed.
 
   Lemma ps_encode_name s :
-    wf_bytes s -> len s < 2 ^ 58 ->
+    wf_bytes s -> len s < 2 ^ 26 ->
     exists e, ps_encode 4 2 s = Ok e /\ wf_bytes e /\ str_lit hs_strict 3 (2 + 0) s e.
   Proof.
-    intros Hwf Hl. destruct (H_henc s Hwf) as (p & Hp & Hwfp & Hhs).
+    intros Hwf Hl. destruct (H_henc s Hwf Hl) as (p & Hp & Hwfp & Hhs).
     pose proof (huffman_length_bound _ _ Hhs Hl) as Hlp.
-    unfold ps_encode. rewrite Hp. change (4 =? 0) with false. cbv iota.
+    unfold ps_encode, ps_enc_size_offset, ps_enc_flag_shift, ps_enc_flag_or. rewrite Hp. change (4 <? 1) with false. cbv iota.
     destruct ps_flag_values as [_ ->]. change (4 - 1) with 3.
     destruct (pi_encode_total 3 5 (len p) ltac:(lia) ltac:(reflexivity) Hlp) as (e1 & He1 & Hwf1 & Hd & _).
     rewrite He1. exists (e1 ++ p). split; [reflexivity|]. split; [apply wf_bytes_app; auto|].
